@@ -23,51 +23,68 @@ def num : Value → Option Int
   | _ => none
 
 /-! ### values -/
-theorem value_compare_eq_iff_equals (a b : Value) : Value.compare a b = .eq ↔ Value.equals a b = true := sorry
-theorem value_compare_swap (a b : Value) : Value.compare b a = (Value.compare a b).swap := sorry
+theorem value_compare_eq_iff_equals (a b : Value) : Value.compare a b = .eq ↔ Value.equals a b = true :=
+  Value.compare_eq_iff a b
+theorem value_compare_swap (a b : Value) : Value.compare b a = (Value.compare a b).swap :=
+  Value.compare_swap a b
 theorem value_compare_trans {a b c : Value} :
-    Value.compare a b ≠ .gt → Value.compare b c ≠ .gt → Value.compare a c ≠ .gt := sorry
-theorem value_less_iff (a b : Value) : Value.less a b = true ↔ Value.compare a b = .lt := sorry
-theorem value_equals_refl (a : Value) : Value.equals a a = true := sorry
-theorem value_equals_symm (a b : Value) : Value.equals a b = Value.equals b a := sorry
+    Value.compare a b ≠ .gt → Value.compare b c ≠ .gt → Value.compare a c ≠ .gt :=
+  Value.compare_le_trans
+theorem value_less_iff (a b : Value) : Value.less a b = true ↔ Value.compare a b = .lt :=
+  Value.less_iff a b
+theorem value_equals_refl (a : Value) : Value.equals a a = true := Value.equals_refl a
+theorem value_equals_symm (a b : Value) : Value.equals a b = Value.equals b a := Value.equals_symm a b
 /-- ints and floats compare numerically (exactly) -/
 theorem value_compare_numeric (a b : Value) (x y : Int) (ha : num a = some x) (hb : num b = some y) :
-    Value.compare a b = compare x y ∧ Value.equals a b = (x == y) := sorry
+    Value.compare a b = compare x y ∧ Value.equals a b = (x == y) :=
+  numv_compare a b x y (by cases a <;> exact ha) (by cases b <;> exact hb)
 
 /-! ### key lists -/
-theorem fieldlist_compare_eq_iff_equals (a b : FieldList) : FieldList.compare a b = .eq ↔ FieldList.equals a b = true := sorry
-theorem fieldlist_compare_swap (a b : FieldList) : FieldList.compare b a = (FieldList.compare a b).swap := sorry
+theorem fieldlist_compare_eq_iff_equals (a b : FieldList) : FieldList.compare a b = .eq ↔ FieldList.equals a b = true :=
+  FieldList.compare_eq_iff a b
+theorem fieldlist_compare_swap (a b : FieldList) : FieldList.compare b a = (FieldList.compare a b).swap :=
+  FieldList.compare_swap a b
 theorem fieldlist_compare_trans {a b c : FieldList} :
-    FieldList.compare a b ≠ .gt → FieldList.compare b c ≠ .gt → FieldList.compare a c ≠ .gt := sorry
-theorem fieldlist_less_iff (a b : FieldList) : FieldList.less a b = true ↔ FieldList.compare a b = .lt := sorry
-theorem fieldlist_equals_refl (a : FieldList) : FieldList.equals a a = true := sorry
-theorem fieldlist_equals_symm (a b : FieldList) : FieldList.equals a b = FieldList.equals b a := sorry
+    FieldList.compare a b ≠ .gt → FieldList.compare b c ≠ .gt → FieldList.compare a c ≠ .gt :=
+  FieldList.compare_le_trans
+theorem fieldlist_less_iff (a b : FieldList) : FieldList.less a b = true ↔ FieldList.compare a b = .lt :=
+  FieldList.less_iff a b
+theorem fieldlist_equals_refl (a : FieldList) : FieldList.equals a a = true := FieldList.equals_refl a
+theorem fieldlist_equals_symm (a b : FieldList) : FieldList.equals a b = FieldList.equals b a :=
+  FieldList.equals_symm a b
 
 /-! ### path elements -/
-theorem pe_compare_eq_iff_equals (a b : PE) : PE.compare a b = .eq ↔ PE.equals a b = true := sorry
-theorem pe_compare_swap (a b : PE) : PE.compare b a = (PE.compare a b).swap := sorry
+theorem pe_compare_eq_iff_equals (a b : PE) : PE.compare a b = .eq ↔ PE.equals a b = true :=
+  PE.compare_eq_iff a b
+theorem pe_compare_swap (a b : PE) : PE.compare b a = (PE.compare a b).swap := PE.compare_swap a b
 theorem pe_compare_trans {a b c : PE} :
-    PE.compare a b ≠ .gt → PE.compare b c ≠ .gt → PE.compare a c ≠ .gt := sorry
-theorem pe_less_iff (a b : PE) : PE.less a b = true ↔ PE.compare a b = .lt := sorry
-theorem pe_equals_refl (a : PE) : PE.equals a a = true := sorry
-theorem pe_equals_symm (a b : PE) : PE.equals a b = PE.equals b a := sorry
+    PE.compare a b ≠ .gt → PE.compare b c ≠ .gt → PE.compare a c ≠ .gt := PE.compare_le_trans
+theorem pe_less_iff (a b : PE) : PE.less a b = true ↔ PE.compare a b = .lt := PE.less_iff a b
+theorem pe_equals_refl (a : PE) : PE.equals a a = true := PE.equals_refl a
+theorem pe_equals_symm (a b : PE) : PE.equals a b = PE.equals b a := PE.equals_symm a b
 
 /-! ### matchers -/
-theorem matcher_compare_eq_iff_equals (a b : PEMatcher) : PEMatcher.compare a b = .eq ↔ PEMatcher.equals a b = true := sorry
-theorem matcher_compare_swap (a b : PEMatcher) : PEMatcher.compare b a = (PEMatcher.compare a b).swap := sorry
+theorem matcher_compare_eq_iff_equals (a b : PEMatcher) : PEMatcher.compare a b = .eq ↔ PEMatcher.equals a b = true :=
+  PEMatcher.compare_eq_iff a b
+theorem matcher_compare_swap (a b : PEMatcher) : PEMatcher.compare b a = (PEMatcher.compare a b).swap :=
+  PEMatcher.compare_swap a b
 theorem matcher_compare_trans {a b c : PEMatcher} :
-    PEMatcher.compare a b ≠ .gt → PEMatcher.compare b c ≠ .gt → PEMatcher.compare a c ≠ .gt := sorry
-theorem matcher_less_iff (a b : PEMatcher) : PEMatcher.less a b = true ↔ PEMatcher.compare a b = .lt := sorry
-theorem matcher_equals_refl (a : PEMatcher) : PEMatcher.equals a a = true := sorry
-theorem matcher_equals_symm (a b : PEMatcher) : PEMatcher.equals a b = PEMatcher.equals b a := sorry
+    PEMatcher.compare a b ≠ .gt → PEMatcher.compare b c ≠ .gt → PEMatcher.compare a c ≠ .gt :=
+  PEMatcher.compare_le_trans
+theorem matcher_less_iff (a b : PEMatcher) : PEMatcher.less a b = true ↔ PEMatcher.compare a b = .lt :=
+  PEMatcher.less_iff a b
+theorem matcher_equals_refl (a : PEMatcher) : PEMatcher.equals a a = true := PEMatcher.equals_refl a
+theorem matcher_equals_symm (a b : PEMatcher) : PEMatcher.equals a b = PEMatcher.equals b a :=
+  PEMatcher.equals_symm a b
 
 /-! ### paths -/
-theorem path_compare_eq_iff_equals (a b : Path) : Path.compare a b = .eq ↔ Path.equals a b = true := sorry
-theorem path_compare_swap (a b : Path) : Path.compare b a = (Path.compare a b).swap := sorry
+theorem path_compare_eq_iff_equals (a b : Path) : Path.compare a b = .eq ↔ Path.equals a b = true :=
+  Path.compare_eq_iff a b
+theorem path_compare_swap (a b : Path) : Path.compare b a = (Path.compare a b).swap := Path.compare_swap a b
 theorem path_compare_trans {a b c : Path} :
-    Path.compare a b ≠ .gt → Path.compare b c ≠ .gt → Path.compare a c ≠ .gt := sorry
-theorem path_equals_refl (a : Path) : Path.equals a a = true := sorry
-theorem path_equals_symm (a b : Path) : Path.equals a b = Path.equals b a := sorry
+    Path.compare a b ≠ .gt → Path.compare b c ≠ .gt → Path.compare a c ≠ .gt := Path.compare_le_trans
+theorem path_equals_refl (a : Path) : Path.equals a a = true := Path.equals_refl a
+theorem path_equals_symm (a b : Path) : Path.equals a b = Path.equals b a := Path.equals_symm a b
 
 /-! ### sorted containers -/
 
@@ -76,21 +93,26 @@ def buildSet (xs : List PE) : List PE := xs.foldl (fun s pe => peInsert pe s) []
 /-- `PathElementMap` built by any insertion sequence -/
 def buildMap {β : Type} (xs : List (PE × β)) : List (PE × β) := xs.foldl (fun m x => pemInsert x.1 x.2 m) []
 
-theorem set_sorted (xs : List PE) : sortedPEs (buildSet xs) = true := sorry
+theorem set_sorted (xs : List PE) : sortedPEs (buildSet xs) = true :=
+  sortedPEs_foldl_peInsert xs [] rfl
 /-- lookup returns exactly what was inserted (up to `Equals`) -/
 theorem set_has_iff_inserted (xs : List PE) (q : PE) :
-    peHas q (buildSet xs) = xs.any (fun x => PE.equals x q) := sorry
+    peHas q (buildSet xs) = xs.any (fun x => PE.equals x q) := by
+  simpa [peHas, buildSet] using peHas_foldl_peInsert q xs []
 /-- …regardless of insertion order -/
 theorem set_order_independent (xs ys : List PE) (h : xs.Perm ys) (q : PE) :
-    peHas q (buildSet xs) = peHas q (buildSet ys) := sorry
+    peHas q (buildSet xs) = peHas q (buildSet ys) := by
+  rw [set_has_iff_inserted, set_has_iff_inserted, any_perm h]
 /-- a map lookup returns the value inserted last under an equal key -/
 theorem map_get_last_inserted {β : Type} (xs : List (PE × β)) (q : PE) :
-    pemGet q (buildMap xs) = (xs.reverse.find? (fun x => PE.equals x.1 q)).map (·.2) := sorry
+    pemGet q (buildMap xs) = (xs.reverse.find? (fun x => PE.equals x.1 q)).map (·.2) := by
+  simpa [pemGet, buildMap] using pemGet_foldl_pemInsert q xs []
 /-- the transcribed `sort.Search` loop returns the lower bound of a monotone predicate, which is the
 position the linear scans `peHas` / `pemGet` / `getChild` of the model stop at on a sorted slice -/
 theorem sortSearch_lower_bound (n : Nat) (f : Nat → Bool)
     (hmono : ∀ i j, i ≤ j → j < n → f i = true → f j = true) :
-    sortSearch n f ≤ n ∧ (∀ i, i < sortSearch n f → f i = false) ∧ (sortSearch n f < n → f (sortSearch n f) = true) := sorry
+    sortSearch n f ≤ n ∧ (∀ i, i < sortSearch n f → f i = false) ∧ (sortSearch n f < n → f (sortSearch n f) = true) :=
+  sortSearch_spec n f hmono
 
 /-! ### non-vacuity: the laws are exercised on concrete non-trivial instances -/
 example : Value.compare (.int 1) (.float scale false) = .eq ∧ Value.equals (.int 1) (.float scale false) = true := by
